@@ -343,7 +343,30 @@ def rule_sharepath(ctx):
         f = fx.fn(want)
         fn = Fn(f)
         flow = Flow(fn)
-        pushes = {bi for bi, t in fn.calls() if t.get("callee_name") in ("push", "push_front", "push_back")}
+        def adds(t, depth=0):
+            """the call adds to a collection: push/push_front/push_back, or a helper of the crate that does (the lifting moved into a method)"""
+            if t.get("callee_name") in ("push", "push_front", "push_back"):
+                return True
+            k2 = t.get("resolved_key") or t.get("callee_key")
+            g = fx.fns.get(k2)
+            if not g or g["crate"] != f["crate"] or depth > 2 or k2 == f["key"]:
+                return False
+            gfn = Fn(g)
+            # on every path of the helper
+            gp = {bi for bi, t2 in gfn.calls() if adds(t2, depth + 1)}
+            if not gp:
+                return False
+            ws, sn = [0], set()
+            while ws:
+                x = ws.pop()
+                if x in sn or x not in gfn.reach or x in gp:
+                    continue
+                sn.add(x)
+                if g["blocks"][x]["term"]["k"] == "return":
+                    return False
+                ws.extend(gfn.succ[x])
+            return True
+        pushes = {bi for bi, t in fn.calls() if adds(t)}
         if not pushes:
             raise AnalysisError("R-SHAREPATH: %s does not add to a collection" % f["key"])
         rets = [b for b in fn.reach if f["blocks"][b]["term"]["k"] == "return"]
